@@ -1184,6 +1184,8 @@ class Interp(object):
                     return self.models.native_descriptor(self, obj, k, name, a)
                 r = self.models.class_data_attr(self, obj, k, name, a)
                 return r
+        if isinstance(obj, Obj) and obj.meta.get('dynamic') is not None:
+            return obj.meta['dynamic'](self, obj, name)
         dyn = None
         for k in mro:
             if '_pyvc_dynamic' in k.__dict__:
